@@ -29,7 +29,7 @@ def derive_seed(*parts) -> int:
 
 
 class Choices:
-    __slots__ = ("_rng", "_replay", "_pos", "trace")
+    __slots__ = ("_rng", "_replay", "_pos", "trace", "spans")
 
     def __init__(self, seed: Optional[int] = None, replay: Optional[Sequence[int]] = None):
         if (seed is None) == (replay is None):
@@ -38,6 +38,7 @@ class Choices:
         self._replay = list(replay) if replay is not None else None
         self._pos = 0
         self.trace: List[int] = []
+        self.spans: List[tuple] = []  # (start, end) of deletable units (rows, operations, steps)
 
     # -- core ---------------------------------------------------------------
     def draw(self, n: int) -> int:
@@ -54,6 +55,23 @@ class Choices:
             self._pos += 1
         self.trace.append(v)
         return v
+
+    def forced(self, value: int, n: int = 2) -> int:
+        """A choice whose value the *generator* decides (e.g. a "one more row?"
+        bit derived from an already drawn size) but which is recorded in the trace,
+        so that in replay mode it is read back from the list -- which is what lets
+        the shrinker delete a row / an operation by deleting its block of choices."""
+        if self._rng is not None:
+            self.trace.append(value)
+            return value
+        return self.draw(n)
+
+    def begin(self) -> int:
+        return len(self.trace)
+
+    def end(self, start: int):
+        if len(self.trace) > start:
+            self.spans.append((start, len(self.trace)))
 
     # -- conveniences (all built on draw, 0 == simplest) --------------------
     def chance(self, num: int, den: int) -> bool:
@@ -110,80 +128,118 @@ def shrink(
     sched_trace) pair (meaning: same violation site reproduced; the traces are the
     normalised, actually-consumed choices) and None otherwise.
 
-    Passes: zero the schedule; truncate; delete blocks of 8/4/2/1; zero blocks;
-    per element 0, v//2, v-1.  To a fixpoint or `max_evals` evaluations.
+    Budgeted, most profitable passes first: drop the schedule; set the leading
+    (structural) scenario choices to 0; delete large blocks; zero blocks; lower
+    single elements (0, v//2, v-1); delete small blocks.  Repeated to a fixpoint
+    or until `max_evals` evaluations / the deadline.
     """
     evals = 0
+    cur = [list(scen), list(sched)]
+    spans: List[tuple] = []
+
+    def size(a, b):
+        return (len(a) + len(b), sum(a) + sum(b))
+
+    def out_of_budget():
+        return evals >= max_evals or (deadline is not None and deadline())
 
     def attempt(a, b):
-        nonlocal evals, scen, sched
-        if evals >= max_evals or (deadline is not None and deadline()):
-            return False
-        if a == scen and b == sched:
+        nonlocal evals
+        if out_of_budget() or (a == cur[0] and b == cur[1]):
             return False
         evals += 1
         r = test(list(a), list(b))
         if r is None:
             return False
-        na, nb = list(r[0]), list(r[1])
-        # accept only if not larger (lexicographic on (len, sum))
-        if (len(na) + len(nb), sum(na) + sum(nb)) <= (len(scen) + len(sched), sum(scen) + sum(sched)):
-            scen, sched = na, nb
+        na, nb = _strip(list(r[0])), _strip(list(r[1]))
+        if size(na, nb) <= size(cur[0], cur[1]):
+            cur[0], cur[1] = na, nb
+            spans[:] = list(r[2]) if len(r) > 2 else []
             return True
         return False
 
-    # the schedule first: most violations do not need a special interleaving
-    attempt(scen, [])
-    improved = True
-    while improved and evals < max_evals:
-        improved = False
-        for which in (1, 0):
-            cur = sched if which else scen
+    def put(which, new):
+        return attempt(cur[0], new) if which else attempt(new, cur[1])
 
-            def put(new):
-                return attempt(scen, new) if which else attempt(new, sched)
-
-            # truncate tail
-            n = len(cur)
-            for cut in (n // 2, n - 8, n - 4, n - 2, n - 1):
-                if 0 <= cut < len(sched if which else scen):
-                    if put((sched if which else scen)[:cut]):
-                        improved = True
-            # delete blocks
-            for size in (8, 4, 2, 1):
-                i = 0
-                while i + size <= len(sched if which else scen):
-                    c = sched if which else scen
-                    if put(c[:i] + c[i + size :]):
-                        improved = True
-                    else:
-                        i += size
-                    if evals >= max_evals:
-                        break
-            # zero blocks
-            for size in (8, 2):
-                i = 0
-                while i < len(sched if which else scen):
-                    c = sched if which else scen
-                    if any(c[i : i + size]):
-                        if put(c[:i] + [0] * len(c[i : i + size]) + c[i + size :]):
-                            improved = True
-                    i += size
-                    if evals >= max_evals:
-                        break
-            # per element
+    def delete_blocks(which, sizes):
+        got = False
+        for size_ in sizes:
             i = 0
-            while i < len(sched if which else scen):
-                c = sched if which else scen
-                v = c[i]
-                if v:
-                    for cand in (0, v // 2, v - 1):
-                        if cand != v and cand >= 0:
-                            c2 = c[:i] + [cand] + c[i + 1 :]
-                            if put(c2):
-                                improved = True
-                                break
-                i += 1
-                if evals >= max_evals:
-                    break
-    return scen, sched, evals
+            while i + size_ <= len(cur[which]) and not out_of_budget():
+                c = cur[which]
+                if put(which, c[:i] + c[i + size_ :]):
+                    got = True
+                else:
+                    i += size_
+        return got
+
+    def zero_blocks(which, sizes):
+        got = False
+        for size_ in sizes:
+            i = 0
+            while i < len(cur[which]) and not out_of_budget():
+                c = cur[which]
+                if any(c[i : i + size_]) and put(which, c[:i] + [0] * len(c[i : i + size_]) + c[i + size_ :]):
+                    got = True
+                i += size_
+        return got
+
+    def delete_spans():
+        """Delete whole generator-declared units (rows, operations, steps), last first."""
+        got = False
+        k = len(spans) - 1
+        while k >= 0 and not out_of_budget():
+            if k >= len(spans):
+                k = len(spans) - 1
+                continue
+            a, b = spans[k]
+            c = cur[0]
+            if b <= len(c) + 64 and a < len(c) and put(0, c[:a] + c[b:]):
+                got = True  # spans were refreshed by the successful attempt
+                k = min(k, len(spans)) - 1
+            else:
+                k -= 1
+        return got
+
+    def lower_elements(which, lo, hi, cands):
+        got = False
+        i = lo
+        while i < min(hi, len(cur[which])) and not out_of_budget():
+            c = cur[which]
+            v = c[i]
+            if v:
+                for cand in cands(v):
+                    if cand != v and cand >= 0 and put(which, c[:i] + [cand] + c[i + 1 :]):
+                        got = True
+                        break
+            i += 1
+        return got
+
+    cur[0], cur[1] = _strip(cur[0]), _strip(cur[1])
+    if not attempt(cur[0], []):  # most violations do not need a special interleaving
+        attempt(cur[0] + [0], cur[1])  # (also primes `spans`)
+    improved = True
+    while improved and not out_of_budget():
+        improved = False
+        improved |= delete_spans()
+        improved |= lower_elements(0, 0, 48, lambda v: (0,))
+        for which in (0, 1):
+            n = len(cur[which])
+            for cut in (n // 2, (3 * n) // 4):
+                if 0 <= cut < len(cur[which]) and put(which, cur[which][:cut]):
+                    improved = True
+            improved |= delete_blocks(which, (32, 16, 8))
+        for which in (0, 1):
+            improved |= zero_blocks(which, (16, 4))
+        for which in (0, 1):
+            improved |= lower_elements(which, 0, 10**9, lambda v: (0, v // 2, v - 1))
+        for which in (0, 1):
+            improved |= delete_blocks(which, (4, 2, 1))
+    return cur[0], cur[1], evals
+
+
+def _strip(a: List[int]) -> List[int]:
+    """An exhausted replay list yields 0: trailing zeros are redundant."""
+    while a and a[-1] == 0:
+        a.pop()
+    return a
